@@ -310,6 +310,12 @@ struct UndoEntry {
 }
 
 impl Facts {
+    /// Verification hook: number of undo frames currently open (read-only).
+    #[cfg(feature = "verif-hooks")]
+    pub fn verif_undo_depth(&self) -> usize {
+        self.undo_frames.read().unwrap().len()
+    }
+
     /// Start a new undo frame. Call `rollback_undo_frame` to revert or
     /// `commit_undo_frame` to discard recorded changes.
     pub fn begin_undo_frame(&self) {
